@@ -222,6 +222,8 @@ class Calls(DataModels):
             if name == 'getvalue':
                 return SBytes(obj.arr, 0, obj.length)
             raise Unsupported('stream.%s' % name)
+        if isinstance(obj, _struct_mod.Struct) and name == 'unpack':
+            return _b_struct_unpack(self, I, [obj.format, args[0]], {}, node)
         if isinstance(obj, SObj):
             if name in obj.attrs:
                 return self.call(I, obj.attrs[name], args, kw, node, fr)
@@ -1305,15 +1307,19 @@ def _b_struct_unpack(M, I, args, kw, node):
              'L': (4, False), 'l': (4, True), 'Q': (8, False), 'q': (8, True)}
     order = fmt[0] if fmt[0] in '<>=!' else '='
     chars = fmt[1:] if fmt[0] in '<>=!@' else fmt
-    if len(chars) != 1 or chars not in table:
-        raise Unsupported('struct format %r' % fmt)
-    n, signed = table[chars]
+    if not chars or any(c not in table for c in chars) or (len(chars) > 1 and fmt[0] not in '<>!'):
+        raise Unsupported('struct format %r' % fmt)     # several fields only with standard sizes (no alignment)
+    total = sum(table[c][0] for c in chars)
     data = data if isinstance(data, SBytes) else M.to_sbytes(I, data)
-    if not I.pure and not I.ctx.branch(to_int(data.n) == n):
-        raise PyExc('error', line_of(node), 'struct.error: unpack requires a buffer of %d bytes' % n)
-    I.assumptions.add('struct.unpack(%r) is the %d-byte %s-endian %s integer reader' % (fmt, n, 'little' if order in '<=' else 'big', 'signed' if signed else 'unsigned'))
-    v = rd_int(data.arr, data.off, n, order in '<=', signed)
-    return (v,)
+    if not I.pure and not I.ctx.branch(to_int(data.n) == total):
+        raise PyExc('error', line_of(node), 'struct.error: unpack requires a buffer of %d bytes' % total)
+    I.assumptions.add('struct.unpack(%r) reads %s-endian integers of the standard sizes, field after field' % (fmt, 'little' if order in '<=' else 'big'))
+    out, off = [], to_int(data.off)
+    for c in chars:
+        n, signed = table[c]
+        out.append(rd_int(data.arr, off, n, order in '<=', signed))
+        off = off + n
+    return tuple(out)
 
 
 def _b_bisect_right(M, I, args, kw, node):
